@@ -105,7 +105,21 @@ func TestC01(t *testing.T) {
 					st.Label("inconclusive-hang-without-block-evidence")
 					return ""
 				}
-				return fmt.Sprintf("run did not return within %d ms and all engine goroutines are blocked (%s); producible=%v", c.WatchdogMs, detail, m.Producible())
+				class := ""
+				for _, o := range c.Main.Outputs {
+					o.Val.Walk(func(v *vcase.Val) {
+						if v.Expr != nil {
+							var refs []vcase.Ref
+							v.Expr.Refs(&refs)
+							for _, r := range refs {
+								if r.Stage == "closed" {
+									class = " [class: an output references closed.result of a step]"
+								}
+							}
+						}
+					})
+				}
+				return fmt.Sprintf("run did not return within %d ms and all engine goroutines are blocked (%s); producible=%v%s", c.WatchdogMs, detail, m.Producible(), class)
 			}
 			ret := ans.Returned
 			if ret.Err == "" {
